@@ -17,6 +17,44 @@ CHECKS = {
         "after every step. Exhaustive below the bound, sampled above it.",
         "Trusted: the harness' recorded edge list + BFS; g++ -O1 build of the "
         "current typegraph sources."),
+    "C07": (
+        "bounded-exhaustive typegraph enumeration + Hypothesis graph generation "
+        "against an independent path-enumeration reference model",
+        "Every typegraph of six small families (<=4 nodes, <=3 bindings, all "
+        "query nodes, all binding subsets <=3) is enumerated completely and "
+        "HasCombination/IsVisible/Filter compared two-sidedly with a naive "
+        "reference; random graphs to 12 nodes (DAG exact, conditions one-sided, "
+        "cyclic graphs the three stated implications).",
+        "Trusted: vlib/tg.py Reference (written from the property statement, "
+        "validated against cfg_test.py conventions); g++ -O1 build."),
+    "C08": (
+        "Hypothesis rule-based state machine; model = replica rebuilt from the "
+        "mutation log at every query",
+        "Generated histories of 13 kinds of mutation and 7 kinds of query on one "
+        "long-lived Program; every answer is compared with a fresh replica and "
+        "immediately repeated; earlier queries are re-asked later.",
+        "Trusted: the replica is built by the same cfg code, so only "
+        "history-dependence is visible here (history-independent errors are "
+        "C07's). Source cycles and self-pastes are outside the domain."),
+    "C17": (
+        "exhaustive enumeration of constructor calls and simplify(table) calls "
+        "with truth tables from an independent evaluator",
+        "All And/Or/Eq constructions to depth 2 over 3 variables x 3 values "
+        "(and 2x2 deeper) and term.simplify for every restriction table are "
+        "checked on every assignment; complete below the stated bound.",
+        "Trusted: 15-line structural evaluator in props/c17_booleq.py; atoms "
+        "restricted to Eq(var,value)/Eq(var,var) as the module documents."),
+    "C18": (
+        "exhaustive truth tables + breadth-first enumeration of reachable block "
+        "states + Hypothesis rule-based state machine with a model denotation",
+        "All And/Or/Not terms to depth 3 over p,q,r; every pair of the ~2000 "
+        "block states reachable in 3 public operations is merged and compared "
+        "with the denotational union under every valuation; long histories are "
+        "checked against an independently maintained model.",
+        "Trusted: the denotation reads BlockState's private fields "
+        "(_locals, _condition, _locals_with_block_condition) as documented in "
+        "state.py; a refactoring of that representation needs the reader "
+        "updated."),
 }
 
 PENDING_REASON = ("check not built yet in this round; planned per DESIGN.md "
